@@ -794,3 +794,22 @@ Proof.
     with (conv3 u ++ [nth (length u - 1) u 0 - nth (length u - 2) u 0]).
   rewrite removelast_last. rewrite conv3_sum by (subst u; simpl; lia). field.
 Qed.
+
+(* ---------- support for the regenerated obligations (Gen/voronoi_gen.v) ---------- *)
+Lemma Forall2_Qeq_refl l : Forall2 Qeq l l.
+Proof. induction l; constructor; [reflexivity | assumption]. Qed.
+
+Lemma map2_Qdiv_compat a a' b : Forall2 Qeq a a' -> Forall2 Qeq (map2 Qdiv a b) (map2 Qdiv a' b).
+Proof.
+  intros H. revert b. induction H as [|x y a a' Hxy Ha IH]; intros [|c b]; simpl; constructor.
+  - rewrite Hxy. reflexivity.
+  - apply IH.
+Qed.
+
+Lemma nth_Forall2_Qeq w w' i : Forall2 Qeq w w' -> nth i w 0 == nth i w' 0.
+Proof. intros H. revert i. induction H; intros [|i]; simpl; try reflexivity; auto. Qed.
+
+(* (w)[inverse]: gathering through the inverse index respects == *)
+Lemma gather_compat u w w' (traj : list Q) : Forall2 Qeq w w' ->
+  Forall2 Qeq (map (fun x => nth (index x u) w 0) traj) (map (fun x => nth (index x u) w' 0) traj).
+Proof. intros H. apply Forall2_map_same. intros x _. apply nth_Forall2_Qeq, H. Qed.
